@@ -51,3 +51,12 @@ Proof. intro H. unfold run_weak. cbn [fst snd]. split; [|reflexivity]. destruct 
 
 Theorem weak_counts_any_history h noisy p : 1 <= shots p -> snd (run_weak noisy (weak_history h p)) = shots p.
 Proof. intro H. destruct (weak_history_independent h noisy p) as [_ E]. rewrite E. apply weak_counts. exact H. Qed.
+
+(* layer sampling: whatever circuits ran before on the same object and whatever num_mid_measurements the constructor was
+   given, a run allocates "labelled barriers of this circuit + 2" columns *)
+Lemma layers_history_flag h : forall p, sample_layers (layers_history h p) = sample_layers p.
+Proof. induction h as [|a h IH]; intro p; [reflexivity|]. unfold layers_history in *. cbn [fold_left]. rewrite IH.
+  unfold run_layers. destruct (sample_layers p) eqn:E; cbn [fst sample_layers]; [reflexivity|exact E]. Qed.
+Theorem layers_history_independent h labelled p :
+  snd (run_layers labelled (layers_history h p)) = if sample_layers p then labelled + 2 else 1.
+Proof. unfold run_layers. rewrite layers_history_flag. destruct (sample_layers p); reflexivity. Qed.
